@@ -96,9 +96,29 @@ func (r *Run) c03Build(t interface {
 		pu, _ := url.Parse(u)
 		h := r.Net.Hosts[strings.ToLower(pu.Hostname())]
 		var headers []string
+		eol := "\r\n"
+		if t.Chance(1, 5) {
+			eol = "\n"
+		}
 		addNoise := func() {
 			for k := t.Draw(3); k > 0; k-- {
 				headers = append(headers, pick(noise))
+			}
+			if t.Chance(1, 10) {
+				// a header whose name only looks like one that matters: a letter from another alphabet or
+				// another case-mapping family (dotted capital I, dotless i, Kelvin sign, long s, Cyrillic
+				// look-alikes, a non-ASCII hyphen), a name with a space before the colon, a folded line
+				val := []string{"application/activity+json", "application/jrd+json", "text/html", urls[t.Draw(len(urls))], "application/json"}[t.Draw(5)]
+				name := []string{"Locat\u0130on", "LOCAT\u0130ON", "Locat\u0131on", "Content\u2010Type", "Content-Typ\u0435", "\u0421ontent-Type", "Content-Type ", " Location", "Location\t",
+					"Content_Type", "Content-Type\u200b", "\ufeffLocation"}[t.Draw(12)]
+				headers = append(headers, name+": "+val)
+				r.S.Probe("c03_lookalike_header_name")
+			}
+			if eol == "\r\n" && t.Chance(1, 12) {
+				// a line that holds nothing but carriage returns is not the blank line that ends the
+				// header block (that one is CR LF or LF alone)
+				headers = append(headers, []string{"\r", "\r\r", "\r \r"}[t.Draw(3)])
+				r.S.Probe("c03_carriage_return_only_line")
 			}
 			if t.Chance(1, 10) {
 				// one over-long irrelevant header line whose tail, at an offset where a fixed-size
@@ -115,10 +135,6 @@ func (r *Run) c03Build(t interface {
 				headers = append(headers, name+strings.Repeat("a", off-len(name))+smuggled)
 				r.S.Probe("c03_long_header_line")
 			}
-		}
-		eol := "\r\n"
-		if t.Chance(1, 5) {
-			eol = "\n"
 		}
 		switch t.Draw(10) {
 		case 0, 1, 2, 3: // document
